@@ -9,6 +9,7 @@
                                   json_object_double_to_json_string (s=4); u: userdata non-NULL,
                                   d: delete callback given
      setv h4 bool|int|int64|uint64|inc|dbl|str|strlen   the value setters (json_object_set_*, int_inc)
+     hash 0|1   json_global_set_string_hash (1 = the unseeded perl-like hash) for tables created afterwards
      copy h6=h3 (shallow-copy function that installs callbacks) | copyd h6=h3 (NULL)
      ptrset h3 <hexpath|-> h4 | use h4
      padd h3 <hexpath> h4 | prepl h3 <hexpath> h4 | prem h3 <hexpath> | pcopy h3 <hexfrom> <hexpath>
@@ -224,6 +225,10 @@ let run line =
   let stopped = ref false in
   (try
     List.iter (fun s ->
+      if String.length s > 5 && String.sub s 0 5 = "hash " then
+        (* json_global_set_string_hash: which hash function new tables use; not part of the model *)
+        out := "0 -" :: !out
+      else
       match parse_patch s with
       | Some p ->
         (try
